@@ -20,7 +20,8 @@ def allNote : List Note :=
   [.dConnecting, .dConnected, .dInit, .dClosing, .dClosed, .aConnected, .aInit, .aClosing, .aClosed, .wClosing, .wClosed]
 def allOp : List Op :=
   [.addrReply .valid, .addrReply .noAddr, .addrReply .noPort, .connectOk true, .connectOk false, .connectRefused,
-   .connectTimeout, .pierce, .cannotConnect, .indirectTimeout, .cancelRequest] ++ allNote.map .note
+   .connectTimeout, .pierce false, .pierce true, .cannotConnect, .indirectTimeout, .cancelRequest, .probe] ++
+  allNote.map .note
 
 theorem mem_allBool (b : Bool) : b ∈ allBool := by cases b <;> decide
 theorem mem_allMode (x : Mode) : x ∈ allMode := by cases x <;> decide
@@ -35,6 +36,7 @@ theorem mem_allOp (op : Op) : op ∈ allOp := by
   cases op with
   | addrReply r => cases r <;> decide
   | connectOk b => cases b <;> decide
+  | pierce b => cases b <;> decide
   | note n => cases n <;> decide
   | _ => decide
 
@@ -121,10 +123,32 @@ theorem mem_allS (s : S) (h : good s = true) : s ∈ allS := by
   exact ⟨s.mode, mem_allMode _, s.cr, mem_allBool _, s.d, mem_allDPh _, s.i, mem_allIPh _, s.res,
     ⟨mem_allRes _, hc⟩, s.srvFail, mem_allBool _, s.a, mem_allAPh _, s.dc, hd, s.ps, hp, he.symm⟩
 
+/-! the four steps that touch the wire-level state (`wireStep`) -/
+
+/-- PeerInit is written (and the outgoing connection finalised) -/
+def evWrites (s : S) (op : Op) : Bool := op == .note .dConnected && s.d == .nConnectedOk
+/-- a piercing connection lands on a listening port -/
+def evLands (s : S) : Op → Option Bool
+  | .pierce o => if s.a = .none then some o else none
+  | _ => none
+/-- its pierce message is matched to the pending waiter (and the connection finalised) -/
+def evAccepts (s : S) (op : Op) : Bool := op == .note .aConnected && s.a == .nConnected && s.tw
+/-- the waiter is completed with it -/
+def evHands (s : S) (op : Op) : Bool := op == .note .aInit && s.a == .nInit && s.tw
+
+/-- how one step `s -op-> s'` can change the facts the wire-level state follows: `ps` becomes true in exactly the step
+that writes PeerInit; the accepted connection enters `nConnected` only by landing, `nInit` only by being matched;
+the request is handed a pierced connection only by the completion of its waiter -/
+def frameOK (s : S) (op : Op) (s' : S) : Bool :=
+  (if evWrites s op then !s.ps && s'.ps else s'.ps == s.ps) &&
+  (s'.a != .nConnected || s.a == .nConnected || (evLands s op).isSome) &&
+  (if evAccepts s op then s'.a == .nInit else (s'.a != .nInit || s.a == .nInit)) &&
+  (!s'.ic || s.ic || evHands s op)
+
 def stepOK (s : S) (op : Op) : Bool :=
   match step s op with
   | none => true
-  | some s' => good s' && s'.mode == s.mode && s'.srvFail == s.srvFail
+  | some s' => good s' && s'.mode == s.mode && s'.srvFail == s.srvFail && frameOK s op s'
 
 /-! what the property theorems say of a state, as decidable propositions -/
 
@@ -205,7 +229,14 @@ theorem good_step {s s' : S} {op : Op} (h : good s = true) (hs : step s op = som
   simp only [h, Bool.not_true, Bool.false_or, Bool.and_eq_true, List.all_eq_true] at ht
   have := ht.2 op (mem_allOp op)
   simp only [stepOK, hs, Bool.and_eq_true] at this
-  exact this.1.1
+  exact this.1.1.1
+
+theorem frame_step {s s' : S} {op : Op} (h : good s = true) (hs : step s op = some s') : frameOK s op s' = true := by
+  have ht := List.all_eq_true.mp table_ok s (mem_allS s h)
+  simp only [h, Bool.not_true, Bool.false_or, Bool.and_eq_true, List.all_eq_true] at ht
+  have := ht.2 op (mem_allOp op)
+  simp only [stepOK, hs, Bool.and_eq_true] at this
+  exact this.2
 
 theorem good_stepT {s : S} (op : Op) (h : good s = true) : good (stepT s op) = true := by
   unfold stepT
